@@ -191,7 +191,7 @@ Section DiscEv.
       (forall id, In id (keys (store (db s'))) -> In id (keys (store (db s)) ++ [bid b])) /\
       (f_irr (c_filter cfg) = true ->
          exists m', fin_events (ri (R a)) (R a) b (m0 (R a)) (disc_events b a (pre ++ [b])) = Some m' /\
-                    MInv U (R a) s' Fin (rev (pre ++ [b])) m').
+                    MInv U (R a) s' Fin (rev (pre ++ [b])) m' /\ fm_any m' = true).
 
   Lemma kept_or_low (l : list entry) x c : in_U l -> In x U -> In (bid x) (keys l) ->
     In (bid x) (keys (filter (fun e => c <=? bnum (eb e)) l)) \/ bnum x < c.
@@ -262,7 +262,7 @@ Section DiscEv.
     eexists. split.
     - change (fresh_events (bref b) (R b) [b] ++ [eI]) with ([e1] ++ [eI]). rewrite fin_events_app, HA.
       apply (fin_root (ri (R b)) (R b) b (with_stack (m0 (R b)) [b]) eI []); reflexivity.
-    - constructor; cbn [with_stack m0 fm_stack fm_nfinal fm_last fm_finals fm_stalled fm_any eblk eI app rev].
+    - split; [|reflexivity]. constructor; cbn [with_stack m0 fm_stack fm_nfinal fm_last fm_finals fm_stalled fm_any eblk eI app rev].
       + reflexivity.
       + reflexivity.
       + rewrite Hdb'. reflexivity.
@@ -429,7 +429,7 @@ Section DiscEv.
     - rewrite fin_events_app, HA.
       apply (fin_root_nf (ri (R (eb a))) (R (eb a)) b (with_stack (m0 (R (eb a))) S3) eI p0 rest);
         cbn [with_stack m0 fm_any fm_stalled fm_stack fm_nfinal eI eblk]; auto.
-    - constructor; cbn [with_stack m0 fm_stack fm_nfinal fm_last fm_finals fm_stalled fm_any eI eblk].
+    - split; [|reflexivity]. constructor; cbn [with_stack m0 fm_stack fm_nfinal fm_last fm_finals fm_stalled fm_any eI eblk].
       + reflexivity.
       + reflexivity.
       + rewrite Hlr'. reflexivity.
